@@ -121,6 +121,14 @@ def check_frame(t: E.Tally, fr: str, f) -> None:
         if str(cmd) != fr or cmd._frame != fr:
             t.bad("C02:command:print-differs", f"str(Command({fr!r})) = {str(cmd)!r}", {"frame": fr})
         fields_ok(cmd, "command")
+        # rebuilt from its own fields (the generic constructor; the sequence number as text and as a number): the same frame
+        for sq in (seqn, None) if seqn == "---" else (seqn, int(seqn)):
+            try:
+                c3 = Command._from_attrs(verb, code, pl, addr0=a0, addr1=a1, addr2=a2, seqn=sq)
+                if str(c3) != fr:
+                    t.bad(f"C02:from_attrs:print-differs:seqn-as-{type(sq).__name__}", f"_from_attrs(..., seqn={sq!r}) of the fields of {fr!r} prints {str(c3)!r}", {"frame": fr})
+            except Exception as e:  # noqa: BLE001
+                t.bad(f"C02:from_attrs:raises:{type(e).__name__}", f"_from_attrs(..., seqn={sq!r}) of the fields of {fr!r}: {type(e).__name__}: {e}", {"frame": fr})
         try:
             rp = repr(cmd)
         except exc.PacketInvalid:
@@ -290,7 +298,7 @@ def run(ctx) -> None:
         ctx,
         total,
         rule="product verb(4) x seqn x address shape(3+1) x type pairs x codes x every payload length 1..48 x 3 fills, plus sweeps of all 64 device "
-        "types in each position, all known codes, all 256 seqn; each frame parsed as Command, as Packet under 4 RSSI forms and 4 annotations, via "
+        "types in each position, all known codes, all 256 seqn; each frame parsed as Command (and rebuilt from its fields with the generic constructor, sequence number as text and as a number), as Packet under 4 RSSI forms and 4 annotations, via "
         "repr, and via every applicable CLI short form; a slice x 8 timestamps written by the library's packet logger to a real file and replayed "
         "by the real FileTransport. distinct = distinct frame text",
         exhaustive=True,
